@@ -163,4 +163,4 @@ Definition w_split_code (k : wcase) : Z :=
   let f := split_pred true k in
   let nb := map norm_bond (w_added k) in
   (if fst c then 1 else 0) + (if fst f then 2 else 0) + (if snd c || snd f then 4 else 0) +
-  (if walk_ok (length (w_xyz k)) nb (tree_order (length (w_xyz k)) nb) then 0 else 8).
+  (if walk_ok (length (w_xyz k)) nb (pfb_walk (length (w_xyz k)) nb) then 0 else 8).
